@@ -195,6 +195,14 @@ func runC13(tier string) int {
 	}
 	for di, d := range c13Defs {
 		opts.Switches = map[string]string{"PV": d.name}
+		// compile switches named like the constants of the file (and like plain identifiers of the template): switches and
+		// constants are separate name spaces
+		for _, l := range d.lines {
+			if f := strings.Fields(l); len(f) >= 2 {
+				opts.Switches[f[1]] = "SWITCHED_" + f[1]
+			}
+		}
+		opts.Switches["X0"], opts.Switches["VAR_Z"], opts.Switches["ITEM_Z"] = "SWX0", "SWVARZ", "SWITEMZ"
 		head := strings.Join(d.lines, "\n") + "\n"
 		blank := strings.Repeat("\n", len(d.lines))
 		multi := strings.Contains(d.expanded, " ") || len(d.lines) > 1
